@@ -153,8 +153,11 @@ func elemKey(t types.Type) string {
 	case *types.Basic:
 		return u.Name()
 	case *types.Pointer:
-		return "ptr" // all pointer-typed elements share one family (sound: coarser)
+		return "*" + typeKey(u.Elem()) // one family per pointee type (Go's type system keeps them apart)
 	case *types.Interface:
+		if n, ok := t.(*types.Named); ok {
+			return typeKey(n) // one family per named interface type
+		}
 		return "iface"
 	case *types.Slice:
 		return "slice"
@@ -205,23 +208,26 @@ func fieldType(t types.Type, name string) (types.Type, int) {
 
 type Universe struct {
 	decls     []string          // ordered declarations / definitions / facts
+	altZ3     map[int]string    // decl index -> replacement text for the z3 dialect (lambda-defined arrays)
 	declared  map[string]string // symbol -> sort (for consts) or signature
 	fresh     int
 	typeIDs   map[string]int
 	typeByID  []types.Type
 	strLits   map[string]string
 	strOrder  []string
+	patLits   map[string]bool // literals used as the pattern of hasPrefix/strContains
 	embTypes  map[string]bool // struct types that are canonicalised as separate objects when nested
 	embTags   map[string]int
 	keySorts  map[string]string // state key -> sort
+	consts    map[string]bool   // symbols introduced by declare-const (usable in patterns)
 	assumes   []string          // human-readable list of modelling assumptions hit
 	implCache map[string][]types.Type
 	allNamed  []*types.Named // candidate dynamic types for interface membership
 }
 
 func newUniverse() *Universe {
-	return &Universe{declared: map[string]string{}, typeIDs: map[string]int{}, strLits: map[string]string{},
-		embTypes: map[string]bool{}, embTags: map[string]int{}, keySorts: map[string]string{}, implCache: map[string][]types.Type{}}
+	return &Universe{consts: map[string]bool{}, altZ3: map[int]string{}, declared: map[string]string{}, typeIDs: map[string]int{}, strLits: map[string]string{},
+		patLits: map[string]bool{}, embTypes: map[string]bool{}, embTags: map[string]int{}, keySorts: map[string]string{}, implCache: map[string][]types.Type{}}
 }
 
 func (u *Universe) emit(s string) { u.decls = append(u.decls, s) }
@@ -231,7 +237,18 @@ func (u *Universe) declareConst(name, sort string) {
 		return
 	}
 	u.declared[name] = sort
+	u.consts[name] = true
 	u.emit(fmt.Sprintf("(declare-const %s %s)", name, sort))
+}
+
+// patternable returns a constant symbol equal to term (quantifier patterns must not contain ite).
+func (u *Universe) patternable(term, sort string) string {
+	if u.consts[term] {
+		return term
+	}
+	n := u.freshConst("pat", sort)
+	u.fact(eq(n, term))
+	return n
 }
 
 func (u *Universe) declareFun(name string, args []string, ret string) {
@@ -261,6 +278,22 @@ func (u *Universe) define(hint, sort, term string) string {
 	n := u.freshName(hint)
 	u.declared[n] = sort
 	u.emit(fmt.Sprintf("(define-fun %s () %s %s)", n, sort, term))
+	return n
+}
+
+// defineArrayDual introduces an array constant that is characterised by quantified facts in the
+// generic dialect (cvc5) and defined by a lambda in the z3 dialect. The lambda must satisfy the facts.
+func (u *Universe) defineArrayDual(hint, sort, lambda string, facts []string) string {
+	n := u.freshName(hint)
+	u.declared[n] = sort
+	u.consts[n] = true
+	var b strings.Builder
+	fmt.Fprintf(&b, "(declare-const %s %s)", n, sort)
+	for _, f := range facts {
+		b.WriteString("\n(assert " + strings.ReplaceAll(f, "$SELF", n) + ")")
+	}
+	u.altZ3[len(u.decls)] = fmt.Sprintf("(define-fun %s () %s %s)", n, sort, strings.ReplaceAll(lambda, "$SELF", n))
+	u.emit(b.String())
 	return n
 }
 
@@ -359,6 +392,7 @@ func (u *Universe) prelude() string {
 	b.WriteString("(declare-fun strlt (Str Str) Bool)\n")
 	b.WriteString("(declare-fun hasPrefix (Str Str) Bool)\n(declare-fun strContains (Str Str) Bool)\n")
 	b.WriteString("(declare-fun reftag (Int) Int)\n(assert (= (reftag 0) 0))\n")
+	b.WriteString("(declare-fun idx (Int Int) Int)\n(assert (forall ((o Int) (j Int)) (! (= (idx o j) (+ o j)) :pattern ((idx o j)))))\n")
 	// string literals: pairwise distinct, known length
 	names := []string{"str!empty"}
 	for _, s := range u.strOrder {
@@ -371,8 +405,14 @@ func (u *Universe) prelude() string {
 	}
 	// literal/literal prefix and containment facts (decided here, concretely)
 	lits := append([]string{""}, u.strOrder...)
+	var pats []string
+	for _, s := range u.strOrder {
+		if u.patLits[u.strLits[s]] {
+			pats = append(pats, s)
+		}
+	}
 	for _, a := range lits {
-		for _, p := range lits {
+		for _, p := range pats {
 			an, pn := u.litName(a), u.litName(p)
 			if strings.HasPrefix(a, p) {
 				fmt.Fprintf(&b, "(assert (hasPrefix %s %s))\n", an, pn)
@@ -388,11 +428,16 @@ func (u *Universe) prelude() string {
 	}
 	// prefix axioms relating literals: hasPrefix(s,p) => strlen s >= strlen p; two literal prefixes of
 	// equal length that differ exclude each other; a prefix that contains q makes s contain q.
-	for _, p := range u.strOrder {
+	b.WriteString("(declare-fun strAt (Str Int) Int)\n")
+	for _, p := range pats {
 		pn := u.litName(p)
+		for i := 0; i < len(p) && i < 4; i++ {
+			fmt.Fprintf(&b, "(assert (= (strAt %s %d) %d))\n", pn, i, p[i])
+			fmt.Fprintf(&b, "(assert (forall ((s Str)) (! (=> (hasPrefix s %s) (= (strAt s %d) %d)) :pattern ((hasPrefix s %s)))))\n", pn, i, p[i], pn)
+		}
 		fmt.Fprintf(&b, "(assert (forall ((s Str)) (! (=> (hasPrefix s %s) (>= (strlen s) %d)) :pattern ((hasPrefix s %s)))))\n", pn, len(p), pn)
 		fmt.Fprintf(&b, "(assert (forall ((s Str)) (! (=> (strContains s %s) (>= (strlen s) %d)) :pattern ((strContains s %s)))))\n", pn, len(p), pn)
-		for _, q := range u.strOrder {
+		for _, q := range pats {
 			if p == q {
 				continue
 			}
@@ -419,6 +464,12 @@ func (u *Universe) prelude() string {
 		fmt.Fprintf(&b, "(assert (forall ((x Int)) (! (and (= (%s (%s x)) x) (= (reftag (%s x)) %d)) :pattern ((%s x)))))\n", g, f, f, u.embTags[k], f)
 	}
 	return b.String()
+}
+
+func (u *Universe) markPattern(term string) {
+	if strings.HasPrefix(term, "str!") {
+		u.patLits[term] = true
+	}
 }
 
 func (u *Universe) litName(s string) string {
@@ -483,6 +534,13 @@ func (u *Universe) get(s *State, key string) string {
 
 func (u *Universe) set(s *State, key, sort, term string) {
 	u.keySort(key, sort)
+	if strings.HasPrefix(sort, "(Array") && strings.HasPrefix(term, "(ite ") {
+		// a real constant (not a macro): quantifier patterns must not contain ite
+		n := u.freshConst(key, sort)
+		u.fact(eq(n, term))
+		s.vars[key] = n
+		return
+	}
 	s.vars[key] = u.define(key, sort, term)
 }
 
@@ -647,6 +705,15 @@ func sArr(s string) string { return proj("sarr", s) }
 func sOff(s string) string { return proj("soff", s) }
 func sLen(s string) string { return proj("slen", s) }
 func sCap(s string) string { return proj("scap", s) }
+
+// cellIdx: absolute index of element i of a slice with offset off (a function symbol so that
+// quantified facts about elements have arithmetic-free triggers).
+func cellIdx(off, i string) string {
+	if off == "0" {
+		return i
+	}
+	return app("idx", off, i)
+}
 func mkS(a, o, l, c string) string {
 	return app("mkS", a, o, l, c)
 }
@@ -706,7 +773,7 @@ func splitTop(s string) []string {
 	return out
 }
 
-func mkI(t, r string) string  { return app("mkI", t, r) }
-func iTyp(s string) string    { return proj("ityp", s) }
-func iRef(s string) string    { return proj("iref", s) }
+func mkI(t, r string) string     { return app("mkI", t, r) }
+func iTyp(s string) string       { return proj("ityp", s) }
+func iRef(s string) string       { return proj("iref", s) }
 func isNilIface(s string) string { return eq(iTyp(s), "0") }
